@@ -23,6 +23,26 @@ ASSUMPTIONS = ["bitwise comparison of numpy buffers and Python lists; object ide
 SHELL_ATTRS = ["_coord", "_exps", "_coeffs", "norm_cont"]
 
 
+def global_state():
+    """process-wide settings that a call must leave alone (besides numpy.geterr(), which is reported separately): scipy's special-function
+    error handling, numpy's print options and error callback, the state of numpy's and Python's global random generators, the warnings
+    filters, the working directory"""
+    import hashlib
+    import os as _os
+    import random as _random
+    import warnings as _warnings
+    from scipy import special as _special
+    return {
+        "scipy.special.geterr": tuple(sorted(_special.geterr().items())),
+        "numpy.printoptions": repr(sorted(np.get_printoptions().items(), key=lambda kv: kv[0])),
+        "numpy.geterrcall": repr(np.geterrcall()),
+        "numpy.random state": hashlib.sha1(np.random.get_state()[1].tobytes()).hexdigest(),
+        "random state": hashlib.sha1(repr(_random.getstate()).encode()).hexdigest(),
+        "warnings.filters": repr(_warnings.filters)[:2000],
+        "cwd": _os.getcwd(),
+    }
+
+
 def snapshot_basis(basis):
     return [(s.angmom, s.coord_type, s.icenter, [np.array(getattr(s, a), copy=True) for a in SHELL_ATTRS]) for s in basis]
 
@@ -181,6 +201,7 @@ def history(run, length, seed_tag):
     first_results = {}
     trace = []
     err0 = dict(np.geterr())
+    glob0 = BASELINE.get("state") or global_state()      # the state of the process before the first library call of this check
     ok = True
     epoch = 0
     for step in range(length):
@@ -237,6 +258,13 @@ def history(run, length, seed_tag):
             k = [i for i, (a, b) in enumerate(zip(now, osnap)) if a != b]
             run.violation(f"call #{step} ({name}, {outcome}) modified an argument object (object #{k})", dict(rep, signature={"kind": "purity-argument"}))
             ok = False
+        if global_state() != glob0:
+            g1 = global_state()
+            run.violation(f"call #{step} ({name}, {outcome}) changed process-wide state other than numpy's error settings: "
+                          + "; ".join(f"{k}: {glob0[k]!r} -> {g1[k]!r}" for k in glob0 if glob0[k] != g1[k])[:600],
+                          {"case": "history", "trace": list(trace), "signature": {"kind": "purity-global-state"}})
+            ok = False
+            glob0 = g1
         if dict(np.geterr()) != err0:
             run.violation(f"call #{step} ({name}, {outcome}) changed numpy's floating-point error settings: {np.geterr()} (were {err0})",
                           dict(rep, signature={"kind": "purity-errstate"}))
@@ -547,9 +575,25 @@ def freed_memory_case(run, n=3):
     return ok
 
 
+BASELINE = {}
+
+
+def global_state_unchanged(run, where):
+    g1 = global_state()
+    g0 = BASELINE["state"]
+    if g1 != g0:
+        run.violation(f"process-wide state changed during {where}: " + "; ".join(f"{k}: {g0[k]!r} -> {g1[k]!r}" for k in g0 if g0[k] != g1[k])[:600],
+                      {"case": "global-state", "where": where, "signature": {"kind": "purity-global-state"}})
+        BASELINE["state"] = g1
+        return False
+    return True
+
+
 def check(run):
     quick = run.tier == "quick"
+    BASELINE["state"] = global_state()
     edited_arguments(run, 2 if quick else 8)
+    global_state_unchanged(run, "calls of the public integral and evaluation functions (edited_arguments)")
     freed_memory_case(run, 3 if quick else 12)
     lengths = [1, 2, 3, 5, 8, 13, 21, 30] if quick else [1, 2, 3, 4, 5, 6, 8, 10, 13, 16, 21, 25, 30] * 4
     for k, n in enumerate(lengths):
@@ -564,6 +608,11 @@ def check(run):
 
 def replay(run, rep):
     n0 = len(run.violations)
+    if rep.get("case") == "global-state":
+        BASELINE["state"] = global_state()
+        edited_arguments(run, 2)
+        global_state_unchanged(run, "calls of the public integral and evaluation functions")
+        return len(run.violations) == n0
     if rep.get("case") == "freed-memory":
         freed_memory_case(run, 8)
         return len(run.violations) == n0
@@ -582,6 +631,7 @@ def replay(run, rep):
     if rep.get("case") == "repeated-import":
         import_histories(run, 8)
         return len(run.violations) == n0
+    BASELINE.setdefault("state", global_state())
     for k in range(12):
         history(run, 30, k)
     freshness(run)
